@@ -428,6 +428,7 @@ def _mutants():
     from selftest.mutate import Mutant as M
     T = "_dataloaders.py"
     return [
+        M("bucket-length-ignores-the-rank", "_dataloaders.py", "batch_sampler.sampler.get_samples_for_epoch(batch_sampler.sampler.epoch)", "batch_sampler.sampler.get_samples_for_epoch_ignoring_distributed(batch_sampler.sampler.epoch)", "length-counts-the-rank"),
         M("seed-unbounded-below", "_dataloaders.py", "base_seed = argcheck.is_nonneg(base_seed, 'base_seed')\n", "", "seed-bounded-on-both-sides"),
         M("random-sampler-drops-mode", "_dataloaders.py", "super().__init__(data_source, init_epoch, on_uneven_distributed)", "super().__init__(data_source, init_epoch)", "super().__init__-forwards-shared-options"),
         M("seed-reads-self-epoch", T, "np.random.RandomState((self.base_seed, epoch))",
